@@ -168,8 +168,30 @@ T.assume("A-flags", "the LABREA.* switch options (LABREA.CACHE.DISABLED/DISABLE,
          "when present, hold plain JSON booleans: reading a switch never fails")
 
 
+def option_contract_facts(t, kterm, o):
+    """keys/explain of an Option WITHOUT default and domain, as a function of the dictionary (proved on the real bodies: group Option:contract)"""
+    g = T.get(o, kterm)
+    q = z3.Const("q!oc", T.Key)
+    kx = T.KSexc(t, o)
+    return [
+        T.KSok(t, o) == z3.And(T.has(o, kterm), T.TKok(g, o)),
+        z3.Implies(T.KSok(t, o), z3.And(z3.ForAll([q], z3.IsMember(q, T.KSset(t, o)) == z3.Or(q == kterm, z3.IsMember(q, T.TKset(g, o))), patterns=[z3.IsMember(q, T.KSset(t, o))]),
+                                        T.subsetP(T.TKset(g, o), T.KSset(t, o)), z3.IsMember(kterm, T.KSset(t, o)))),
+        z3.Implies(z3.Not(T.has(o, kterm)), z3.And(T.is_cls["KeyNotFoundError"](kx), T.is_cls["EvaluationError"](kx), T.missing(kx), T.mkey(kx) == kterm, T.exc_key(kx) == kterm)),
+        z3.Implies(z3.And(T.has(o, kterm), z3.Not(T.TKok(g, o))), kx == T.TKexc(g, o)),
+        T.EXok(t, o),
+        z3.ForAll([q], z3.IsMember(q, T.EXset(t, o)) == z3.Or(q == kterm, z3.And(T.has(o, kterm), z3.IsMember(q, T.TXset(g, o)))), patterns=[z3.IsMember(q, T.EXset(t, o))]),
+        z3.Implies(T.has(o, kterm), T.subsetP(T.TXset(g, o), T.EXset(t, o))),
+    ]
+
+
 def temp_contract(ex, obj, t):
     """facts about temporaries used through their class contract"""
+    if obj.cls.name == "Option" and obj.fields.get("default") is MISSING and obj.fields.get("domain") is MISSING and ex.config.get("option_contract"):
+        kterm = ex.as_key(obj.fields["key"])
+        for o in ex.config["option_contract"]:
+            for f in option_contract_facts(t, kterm, o):
+                ex.define(f)
     if obj.cls.name == "Option":
         k = obj.fields.get("key")
         if isinstance(k, str) and k.startswith("LABREA."):
